@@ -184,14 +184,15 @@ reg("C13",
     technique="Coq induction over the drain (model) + permutation invariance; differential correspondence incl. the CLI",
     timeout={"quick": 600, "thorough": 3000})
 
-reg("C20",
+reg("C20", needs_cli=True,
     rule="a case = 0..2000 results (every 50th index 10^4) over up to 3 methods x 3 URLs x 5 status codes and 3 "
          "error messages, latencies on/just around every default bucket bound, observed sequentially or from 16 "
-         "goroutines (every third index) into a fresh registry, then gathered; non-trivial = at least 2 results",
+         "goroutines (every third index) into a fresh registry, then gathered; every 60th index the real `vegeta attack -prometheus-addr` is interrupted with requests in flight, its exporter scraped 1.3 s later and its output file counted; non-trivial = at least 2 results",
     clauses={1: "exported label sets differ from the observed ones", 2: "bytes-in counter != sum", 3: "bytes-out counter != sum",
              4: "histogram sample count != number of results", 5: "histogram sum != total seconds",
              6: "cumulative bucket counts inconsistent with the latencies", 7: "failure-counter children differ from the (label set, message) pairs that occurred",
-             8: "failure counter != number of results with that error", 9: "the registry cannot gather the metrics after the observations (inconsistent children)"},
+             8: "failure counter != number of results with that error", 9: "the registry cannot gather the metrics after the observations (inconsistent children)",
+             10: "the attack command with -prometheus-addr, interrupted with requests in flight, wrote results its exporter never observed (or observed more than it wrote)"},
     assumptions=["prometheus/client_golang is library code, modelled at the level of what a registry exports (additive counter vectors, cumulative histogram buckets); its atomicity under concurrent Observe is assumed and sampled (16 goroutines)",
                  "totals below 2^53 (float64 counters); histogram sum compared within 2^-30 relative (float accumulation)"],
     level_text="prom_sums_bytes, prom_sums_histogram, prom_failures, prom_failure_children and prom_perm are proved in Coq for every observation sequence (unbounded) about a Gallina model of Metrics.Observe; tied to the Go code on every run by gathering a real registry and comparing with the extracted model and with the reference sums.",
